@@ -10,11 +10,11 @@ SIM = "deterministic simulation with fault injection: "
 CHECKS = {
  "C01": ("exploration", SIM + "seeded search over the entropy seam (PRNG seeds / fuzzer scripts with cut, hostile-f64 and stuck-byte faults) x swarm configurations; plus extremal-state runs (adaptive search over periodic/exhausted scripts), long-lived generators, enumeration of the decision tree to depth 2/3 by steering, and a model-based state cover; oracle = exact emulation of pickletools.dis (R2)",
          "Every output of a seeded batch of simulated runs is replayed through an exact emulation of pickletools.dis's symbolic stack check. Seeded search, not enumeration: a clean batch is evidence, not proof.", "DESIGN.md §5 C01", ""),
- "C02": ("exploration", SIM + "seeded search biased to >256 memo stores and index-perturbing mutators at rate 1.0; oracle = memo rules of the pickletools.dis emulation (R2)",
+ "C02": ("exploration", SIM + "seeded search biased to >256 memo stores and index-perturbing mutators at rate 1.0, plus threshold runs (memo size driven to exactly 255/256/257 by a stuck source, then every next opcode with edge-valued index bytes); oracle = memo rules of the pickletools.dis emulation (R2)",
          "Seeded simulated runs, biased to long in-run histories (1000-6000 opcodes) and to offbyone/memoindex mutators at rate 1.0; each PUT/GET-family opcode is judged by R2's memo rules.", "DESIGN.md §5 C02", ""),
  "C03": ("exploration", SIM + "seeded search over entropy streams/faults and configurations; plus decision-tree enumeration to depth 2/3 by steering the real generator, a model-based state cover of the object-graph fragment, extremal-state runs; oracle = kind-tracking reference machine (R3) applying the operand rules of the statement",
          "Each output is replayed through the kind-tracking reference machine R3 and every typed opcode's operands are checked against the rules in the statement. The bounded-depth enumeration clause of the quantifier is replaced by seeded search plus exhaustive scripts of <= 2 bytes (thorough).", "DESIGN.md §5 C03", ""),
- "C04": ("exploration", SIM + "seeded search incl. unsafe mutators (the generator's own byte-rewriting fault injectors) at high rates; oracle = reference lexer (R1) with argument grammars and domains",
+ "C04": ("exploration", SIM + "seeded search incl. unsafe mutators (the generator's own byte-rewriting fault injectors) at high rates, plus argument sweeps placing integer width/sign edge images at every offset of every opcode's argument window; oracle = reference lexer (R1) with argument grammars and domains",
          "Outputs under every configuration incl. unsafe rewrites are decoded by the reference lexer R1 (grammar + domain of every argument, single trailing STOP).", "DESIGN.md §5 C04", ""),
  "C05": ("exploration", SIM + "seeded search over solo runs and multi-call histories; oracle = introduced-in-protocol column and header rules on R1's decode, tail attributed by phase markers",
          "Opcode vocabulary and PROTO header of every generation call (also the n-th call on a reused generator) are judged on R1's decode.", "DESIGN.md §5 C05", ""),
@@ -22,9 +22,9 @@ CHECKS = {
          "FRAME uniqueness, position and exact length are recomputed from the decoded stream for every call, including under type-confusion rewrites.", "DESIGN.md §5 C06", ""),
  "C08": ("exploration", SIM + "seeded search over call histories (generate / generate_from_arbitrary / reset / reconfigure) on one generator; oracle = fresh generator executing only the last call",
          "History exploration: each generation call of a seeded 1..8-operation history is compared byte-for-byte with a fresh generator (reference = the code itself run without history).", "DESIGN.md §5 C08", ""),
- "C10": ("exploration", SIM + "seeded search over the four flag combinations x all other configuration incl. unsafe rewrites; oracle = opcode set on R1's decode",
+ "C10": ("exploration", SIM + "seeded search over the four flag combinations x all other configuration incl. unsafe rewrites, flag toggling on used generators and stuck-source runs past 2^16 stack items followed by free-running choices; oracle = opcode set on R1's decode",
          "Configuration invariant decided on the recorded outputs of seeded simulated runs.", "DESIGN.md §5 C10", ""),
- "C11": ("exploration", SIM + "seeded search over all opcode-range classes, entropy exhaustion and histories; oracle = phase markers / per-emission records vs R1's opcode count",
+ "C11": ("exploration", SIM + "seeded search over all opcode-range classes, entropy exhaustion and histories, plus table sweeps (every GLOBAL table entry x steered consumer programs); oracle = phase markers / per-emission records vs R1's opcode count",
          "T is read from the trace hook, body records and decoded opcodes are counted, tail and total bounds recomputed, for every call.", "DESIGN.md §5 C11", ""),
  "C17": ("exploration", SIM + "invariant checked while the run proceeds (also on decision-tree nodes to depth 2/3, model-based state-cover programs, extremal-state and long-lived-generator runs): per-emission snapshots of the simulated stack/memo vs the kind-tracking reference machine (R3) under the compatibility relation R4",
          "Step-by-step refinement check of the generator's simulated state against R3 on every prefix of every generated pickle of a seeded batch. Bounded-depth enumeration is replaced by seeded search plus exhaustive scripts of <= 2 bytes (thorough).", "DESIGN.md §5 C17", "Long runs (> 6000 opcodes) compare every 64th snapshot."),
@@ -38,7 +38,7 @@ CHECKS = {
          "Rate extremes are checked (a) in situ with Spy-wrapped real mutators inside seeded runs and (b) by enumerating fault points of the entropy reader for direct calls.", "DESIGN.md §5 C15", ""),
  "C16": ("fault_enumeration", SIM + "value grid x entropy fault points for direct calls of every Mutator method, plus contract checks on every Spy record of seeded simulated runs",
          "Each firing of a mutator, in situ or in a direct call on boundary values and exhausted/hostile entropy, is checked against the documented contract; panics are caught.", "DESIGN.md §5 C16", ""),
- "C18": ("fault_enumeration", SIM + "end-of-stream / short-read fault enumeration on the entropy seam: every EntropySource method x argument grid x ALL fuzzer scripts of length <= 2, sampled longer scripts at every cut, sampled PRNG states",
+ "C18": ("fault_enumeration", SIM + "end-of-stream / short-read fault enumeration on the entropy seam: every EntropySource method x argument grid x ALL fuzzer scripts of length <= 2, sampled longer scripts at every cut, and a PRNG-side boundary hunt (billions of draws over spans around 2^32 and seeded spans in every magnitude class)",
          "The adapters' range contracts and fixed fallbacks are enumerated over all short scripts and sampled beyond.", "DESIGN.md §5 C18", "gen_bytes(usize::MAX) excluded: allocation failure aborts."),
  "C07": ("exploration", SIM + "seeded baton scheduler over real OS threads (one runs at a time, hand-over at every emission step; policies bursty/uniform/round-robin/PCT-style), twin tasks under simulator-chosen memo hash keys, colocated tasks per worker, clock-jump faults through an LD_PRELOAD clock seam, plus the same scenario batch in fresh processes; oracle = byte equality with the task run alone",
          "Interleavings of concurrent generator instances, hash-map seeds and task placement are chosen by a seeded scheduler and are exactly replayable from the recorded schedule string; separate processes are sampled, not controlled.", "DESIGN.md §5 C07", "rayon scheduling inside the CLI, ASLR and the seeds of pointer-keyed sets are varied but not chosen."),
